@@ -93,8 +93,15 @@ def describe(rel):
 
 def patrol(chk, n, wide=False):
     dist, bad, crashed = {}, [], {}
-    for _ in range(n):
-        for rel in rel_cases(chk.rng, "wide" if wide else chk.tier == "quick"):
+    # always part of the patrol: the conjugation in the massive scheme at NLO, where the heavy-quark gluon channel (its own weight builder) contributes
+    fixed = []
+    if not wide:
+        th0 = dict(FNS="FFNS", NfFF=3, PTO=1, PTODIS=1, RenScaleVar=False, FactScaleVar=False)
+        ob0 = dict(prDIS="CC", ProjectileDIS="neutrino", PolarizationDIS=0.0, PropagatorCorrection=0.0, NCPositivityCharge=None, TargetDIS="proton")
+        for name, sgn in (("F3_total", -1.0), ("F2_charm", 1.0)):
+            fixed.append(("cc_conjugation", name, 0.25, 30.0, th0, ob0, th0, dict(ob0, ProjectileDIS="antineutrino"), runs.conj, sgn))
+    for it in range(n + 1):
+        for rel in (fixed if it == n else rel_cases(chk.rng, "wide" if wide else chk.tier == "quick")):
             dist[rel[0]] = dist.get(rel[0], 0) + 1
             try:
                 r = run_rel(rel)
